@@ -47,6 +47,8 @@ def features(items):
                 feats.add("string-concat")
             if jumps_out(e[1]) or jumps_out(e[3]) or returns_out(e[1]) or returns_out(e[3]):
                 feats.add("jump-in-operand")
+            if coregen.effectful(e[1]) and coregen.effectful(e[3]):
+                feats.add("effectful-operands:" + gast.OP_KIND[e[2]])
             expr(e[1], path, scopes)
             expr(e[3], path, scopes)
             return
@@ -178,6 +180,8 @@ def features(items):
 
     top = [set()]
     for it in items:
+        if it[0] == "Fun" and it[1] == "noisy":
+            continue
         if it[0] == "Fun":
             feats.add("fun" if len(it[5]) == 1 else "fun2")
             block(it[7], ["fun:" + it[1]], [set()], bind=[p for p, _ in it[5]])
